@@ -705,6 +705,27 @@ fn refusals<C: Suite>(o: &mut Outcome, tag: &str, ctx: &str, node: &Node<C>, see
             Ok(_) => o.fail(format!("{tag}/dkg-threshold-change-accepted"), format!("{ctx}: distributed refresh with threshold {tt} instead of {t} completed")),
             Err(_) => o.count("refusals_refused", 1),
         }
+        // the same when the participants hold the pre-3.0 public key package (no threshold recorded in it:
+        // the key packages still record it)
+        let legacy = Node::<C> { t, kps: node.kps.clone(), pkp: PublicKeyPackage::<C>::new(node.pkp.verifying_shares().clone(), *node.pkp.verifying_key(), None), prev: None };
+        o.count("transitions", 1);
+        match refresh_dkg::<C>(&legacy, &members, &format!("refusal-tl:{seed}"), tt) {
+            Ok(_) => o.fail(format!("{tag}/dkg-threshold-change-accepted"), format!("{ctx}: distributed refresh with threshold {tt} instead of {t} completed for participants holding a legacy public key package")),
+            Err(_) => o.count("refusals_refused", 1),
+        }
+    }
+    // an honest distributed refresh starting from the legacy public key package works and re-links everything
+    {
+        let legacy = Node::<C> { t, kps: node.kps.clone(), pkp: PublicKeyPackage::<C>::new(node.pkp.verifying_shares().clone(), *node.pkp.verifying_key(), None), prev: None };
+        o.count("transitions", 1);
+        match refresh_dkg::<C>(&legacy, &members, &format!("legacy:{seed}"), t) {
+            Ok(nd) => {
+                o.count("legacy_refreshes", 1);
+                let vk0 = *node.pkp.verifying_key();
+                check_links::<C>(o, tag, "dkg-refresh-from-legacy-package", ctx, &nd, &vk0, false);
+            }
+            Err(e) => o.fail(format!("{tag}/Dkg-refresh-failed"), format!("{ctx}: from a legacy public key package: {e}")),
+        }
     }
     // (b) a stranger takes part in place of one member: every honest member must fail
     if n >= 3 || t == 2 {
